@@ -173,7 +173,7 @@ func isZeroConst(info *types.Info, x ast.Expr) bool {
 
 // guardKind classifies what an atom with outcome val establishes about v:
 // "lower" (v >= 0), "upper:<bound expr>" (v <= / < bound), or "".
-func guardKind(info *types.Info, a atomFact, v *types.Var) (lower bool, upper string) {
+func guardKind(info *types.Info, a atomFact, v *types.Var, narrowDef bool) (lower bool, upper string) {
 	be, ok := ast.Unparen(a.x).(*ast.BinaryExpr)
 	if !ok {
 		return false, ""
@@ -214,6 +214,21 @@ func guardKind(info *types.Info, a atomFact, v *types.Var) (lower bool, upper st
 		}
 	}
 	// now: (expr over v) op r   holds
+	// a guard that does arithmetic on the length (n+4 > len(b)) bounds n only if the arithmetic cannot wrap:
+	// it must be evaluated in int/int64/uint64 while v itself has at most 32 significant bits
+	// (an int from binary.Uint32, or a uint8/16/32 widened before the addition).
+	if hasArith(l) {
+		if b, ok := info.TypeOf(l).Underlying().(*types.Basic); ok {
+			switch b.Kind() {
+			case types.Int, types.Int64, types.Uint, types.Uint64, types.Uintptr, types.UntypedInt:
+				if !narrowDef && !narrowSource(info, l, v) {
+					return false, ""
+				}
+			default:
+				return false, ""
+			}
+		}
+	}
 	switch op {
 	case token.GEQ, token.GTR:
 		if isZeroConst(info, r) || (op == token.GTR && types.ExprString(r) == "-1") {
@@ -354,7 +369,7 @@ func CheckBounds(f *FuncInfo) ([]*BoundsUse, error) {
 				lower = true
 			}
 			for _, a := range atoms {
-				lo, up := guardKind(info, a, r.v)
+				lo, up := guardKind(info, a, r.v, defIsUnsignedNarrow(f, r.v))
 				if lo {
 					lower = true
 				}
@@ -431,4 +446,48 @@ func defIsUnsignedNarrow(f *FuncInfo, v *types.Var) bool {
 		return true
 	})
 	return ok && n > 0
+}
+
+// hasArith reports whether x contains +, -, * or << (a guard over such an expression may wrap).
+func hasArith(x ast.Expr) bool {
+	found := false
+	ast.Inspect(x, func(n ast.Node) bool {
+		if be, ok := n.(*ast.BinaryExpr); ok {
+			switch be.Op {
+			case token.ADD, token.SUB, token.MUL, token.SHL:
+				found = true
+			}
+		}
+		return !found
+	})
+	return found
+}
+
+// narrowSource: v's own type has at most 32 bits and every arithmetic node of x that mentions v is
+// evaluated in a 64-bit type (v was widened before the arithmetic).
+func narrowSource(info *types.Info, x ast.Expr, v *types.Var) bool {
+	b, ok := v.Type().Underlying().(*types.Basic)
+	if !ok {
+		return false
+	}
+	switch b.Kind() {
+	case types.Uint8, types.Uint16, types.Uint32, types.Int8, types.Int16, types.Int32:
+	default:
+		return false
+	}
+	good := true
+	ast.Inspect(x, func(n ast.Node) bool {
+		be, ok := n.(*ast.BinaryExpr)
+		if !ok || !mentionsVar(info, be, v) {
+			return true
+		}
+		switch be.Op {
+		case token.ADD, token.SUB, token.MUL, token.SHL:
+			if tb, ok := info.TypeOf(be).Underlying().(*types.Basic); !ok || tb.Kind() != types.Int && tb.Kind() != types.Int64 && tb.Kind() != types.Uint64 && tb.Kind() != types.Uint {
+				good = false
+			}
+		}
+		return true
+	})
+	return good
 }
